@@ -56,6 +56,12 @@ def build_universe(cx, u):
     for i in range(1, n + 1):
         a = u["v"][i]
         A[i] = M.build(a, im.refs)
+        if not M.evaluable(a):
+            # no program writes this value (a date with microseconds): a second constructor-built object
+            L[i] = M.build(a, im.refs)
+            im.put("l%d" % i, L[i])
+            im.put("a%d" % i, A[i])
+            continue
         o = im.run("def l%d = %s" % (i, M.literal(a)))
         if o[0] != "val" or M.vkey(o[1], im.refs) != M.akey(a):
             cx.run.drift("literal-does-not-evaluate-to-value", {"lit": M.literal(a), "got": str(o)[:80]})
@@ -72,6 +78,36 @@ def build_universe(cx, u):
     im.put("UA", ua)
     im.put("UL", ul)
     return A, L
+
+
+def settle_resolution(cx, u, A, L):
+    """Pairs that differ only in the sub-second parts of dates (ValLaws RoT): the statement does not
+    say whether they are equal.  What the implementation answers (`==` through the API) becomes the
+    reference for every other observation of the pair - hash, membership, lookup, container `==`,
+    the interpreted operators - and must itself be symmetric; a difference from the model's finest
+    resolution is recorded as drift."""
+    n = u["n"]
+    ro = u.get("ro")
+    if not ro:
+        return 0
+    obs = {}
+    for i in range(1, n + 1):
+        for j in range(1, n + 1):
+            if ro[i][j]:
+                o = M.host(lambda: bool(A[i] == L[j]))
+                if o[0] == "val":
+                    obs[(i, j)] = o[1]
+    for (i, j), e in obs.items():
+        if e != u["eq"][i][j]:
+            cx.run.drift("date-equality-coarser-than-microseconds",
+                         {"a": lit_key(u["v"][i]), "b": lit_key(u["v"][j]), "==": e})
+        if (j, i) in obs and obs[(j, i)] != e:
+            a, b = u["v"][i], u["v"][j]
+            cx.vio(f"sym:{lit_key(a)} ~ {lit_key(b)}", f"symmetry: {lit_key(a)} == {lit_key(b)} is {e}, the "
+                                                          f"converse {obs[(j, i)]}",
+                   {"kind": "pair", "a": a, "b": b, "eq": None})
+        u["eq"][i][j] = e
+    return len(obs)
 
 
 def check_pair_api(cx, u, A, L, i, j):
@@ -186,7 +222,7 @@ EQ_OPS = ["remove-from-set", "set-difference", "list-difference", "remove-from-l
           "remove-from-map", "set==", "list==", "map==", "set-literal-size", "set()-size",
           "set==-other-order", "append-size"]
 NE_SRC = ("do def x = %s; def y = %s; [length(<< x, y >>), << x >> == << y >>, [x] == [y], "
-          "length(<< x, 'zz77' >> - << y >>), <<< x => 1 >>> == <<< y => 1 >>>]; end")
+          "length(<< x, 'zz77' >> - << y >>), map([[x, 1]]) == map([[y, 1]])]; end")
 NE_WANT = [2, False, False, 2, False]
 
 
@@ -390,17 +426,94 @@ def check_orders(cx, pool, reads, rng):
 
 
 # ---------------------------------------------------------------- binding B
-def rel_event(cx, a, b, ord_=False):
+# Observers of "are bx and by the same value?" beyond the API `==`: every answer is normalised to a
+# boolean that must coincide with `==` (Val_Trace clause `interchangeable`).
+AX_NAMES = ["api:converse ==", "api:set.hasItem", "api:set size after adding both", "api:map.hasItem",
+            "api:map size after putting both", "api:list.findItem", "api:set ==", "api:list ==",
+            "api:map == (as value)", "api:map == (as key)"]
+
+
+def ax_observe(x, y):
+    s = V.ValueSet().addItem(x)
+    r = [bool(y == x), bool(s.hasItem(y))]
+    s.addItem(y)
+    r.append(len(s.value) == 1)
+    m = V.ValueMap().addItem(x, V.ValueInt(7))
+    r.append(bool(m.hasItem(y)))
+    m.addItem(y, V.ValueInt(8))
+    r.append(len(m.value) == 1)
+    r.append(V.ValueList().addItem(x).findItem(y) == 0)
+    r.append(bool(V.ValueSet().addItem(x) == V.ValueSet().addItem(y)))
+    r.append(bool(V.ValueList().addItem(x) == V.ValueList().addItem(y)))
+    r.append(bool(V.ValueMap().addItem(V.ValueInt(1), x) == V.ValueMap().addItem(V.ValueInt(1), y)))
+    r.append(bool(V.ValueMap().addItem(x, V.ValueInt(1)) == V.ValueMap().addItem(y, V.ValueInt(1))))
+    return r
+
+
+PX_ITEMS = [
+    ("==", "bx == by"), ("converse ==", "by == bx"), ("!=", "not (bx != by)"), ("is", "bx is by"),
+    ("equals", "equals(bx, by)"), ("not_equals", "not not_equals(bx, by)"),
+    ("in list", "by in [bx]"), ("find", "find([bx], by) == 0"),
+    ("in set", "by in << bx >>"), ("in set (converse)", "bx in << by >>"),
+    ("in map", "by in mx"), ("in map (converse)", "bx in my"),
+    ("set ==", "<< bx >> == << by >>"), ("list ==", "[bx] == [by]"),
+    ("map == (as key)", "map([[bx, 1]]) == map([[by, 1]])"), ("map == (as value)", "<<< 1 => bx >>> == <<< 1 => by >>>"),
+    ("size of << x, y >>", "length(<< bx, by >>) == 1"), ("size of set([x, y])", "length(set([bx, by])) == 1"),
+    ("set difference", "length(<< bx, 'zz77' >> - << by >>) == 1"),
+    ("list difference", "length([bx, 'zz77'] - [by]) == 1"),
+    ("remove from set", "length(remove(<< bx, 'zz77' >>, by)) == 1"),
+    ("remove from list", "length(remove([bx], by)) == 0"),
+    ("remove from map", "length(remove(map([[bx, 1]]), by)) == 0"),
+    ("append to set", "length(append(<< bx >>, by)) == 1"),
+]
+PX_NAMES = [n for n, _ in PX_ITEMS]
+PX_SRC = ("do def mx = <<<>>>; mx[bx] = 7; def my = <<<>>>; my[by] = 7; ["
+          + ", ".join(src for _, src in PX_ITEMS) + "]; end")
+OBS_NAMES = AX_NAMES + PX_NAMES
+
+
+def observe_pair(cx, x, y, key, case):
+    """(eq, ne, hq, px) of two implementation objects, or None after reporting a host exception"""
     im = cx.im
-    x = M.build(a, im.refs)
-    y = M.build(b, im.refs)
-    o = M.host(lambda: (x == y, x != y, hash(x) == hash(y)))
+    o = M.host(lambda: (bool(x == y), bool(x != y), hash(x) == hash(y), ax_observe(x, y)))
     if o[0] == "host":
-        cx.vio(f"rel:{lit_key(a)} ~ {lit_key(b)} !{o[1]}", f"host-exception: comparing raised {o[1]}",
-               {"kind": "pair", "a": a, "b": b, "eq": None})
+        cx.vio(f"rel:{key} !{o[1]}", f"host-exception: comparing {key} raised {o[1]} {o[2]}", case)
         return None
-    eq, ne, hq = o[1]
-    return {"op": "rel", "a": a, "b": b, "eq": bool(eq), "ne": bool(ne), "hq": bool(hq), "ord": False,
+    eq, ne, hq, ax = o[1]
+    im.put("bx", x)
+    im.put("by", y)
+    oo = im.run(PX_SRC)
+    cx.n_eval += 1
+    if oo[0] == "host":
+        cx.vio(f"rel-prog:{key} !{oo[1]}", f"host-exception: comparing {key} in a program raised {oo[1]} {oo[2]}",
+               case)
+        return None
+    if oo[0] != "val":
+        cx.vio(f"rel-prog:{key} !error", f"error: comparing {key} in a program failed: {oo[1]}", case)
+        return None
+    px = M.bools(oo[1])
+    if len(px) != len(PX_ITEMS) or not all(isinstance(t, bool) for t in px):
+        cx.vio(f"rel-prog:{key} !shape", f"error: comparing {key} in a program gave {str(oo[1])[:120]}", case)
+        return None
+    return eq, ne, hq, ax + px
+
+
+def disagreeing(e):
+    names = OBS_NAMES + [n + " (converse)" for n in OBS_NAMES]
+    return [n for n, t in zip(names, e["px"]) if t != e["eq"]]
+
+
+def rel_event(cx, a, b, x=None, y=None):
+    """the relations of two values: through the API and through one interpreted program; x, y: the
+    implementation objects when they were not built from a, b (values made by natives)"""
+    im = cx.im
+    x = M.build(a, im.refs) if x is None else x
+    y = M.build(b, im.refs) if y is None else y
+    r = observe_pair(cx, x, y, f"{lit_key(a)} ~ {lit_key(b)}", {"kind": "pair", "a": a, "b": b, "eq": None})
+    if r is None:
+        return None
+    eq, ne, hq, px = r
+    return {"op": "rel", "a": a, "b": b, "eq": eq, "ne": ne, "hq": hq, "px": px, "ord": False,
             "lt": False, "le": False, "gt": False, "ge": False, "cmp": 0, "mn": 0, "mx": 0}
 
 
@@ -455,7 +568,7 @@ def cont_trace(cx, rng, events, meta, elem_pool):
             if o[0] == "val":
                 got = o[1].value
                 try:
-                    r = M.to_abs(got[0], im.refs) if got else M.a_null()
+                    r = M.to_abs(got[0], im.refs, True) if got else M.a_null()
                 except M.Unencodable:
                     continue
                 events.append({"op": "cget", "k": v, "okk": bool(got), "r": r})
@@ -500,56 +613,418 @@ def cont_trace(cx, rng, events, meta, elem_pool):
             meta.append(src)
 
 
-def binding_b(cx, rng, npairs, ntraces):
+# ------------------------------------------------- values with a history
+def rich_scalar(rng, kind=None):
+    return M.gen_scalar(rng, kind, rich=True)
+
+
+def path_expr(path):
+    """the program text that denotes the part of `hw` addressed by the path"""
+    t = "hw"
+    for st in path:
+        t += "[%d]" % (st["i"] - 1) if st["i"] > 0 else "[%s]" % M.literal(st["key"])
+    return t
+
+
+def edit_stmt(path, op, alt=False):
+    """the statement that performs the edit on the object held in `hw`"""
+    t = path_expr(path)
+    n = op["name"]
+    if n in ("setat", "setchar"):
+        return "%s[%d] = %s" % (t, op["i"] - 1, M.literal(op["e"]))
+    if n == "append":
+        return "append(%s, %s)" % (t, M.literal(op["e"]))
+    if n == "insertat":
+        return "insert_at(%s, %d, %s)" % (t, op["i"] - 1, M.literal(op["e"]))
+    if n == "deleteat":
+        return "delete_at(%s, %d)" % (t, op["i"] - 1)
+    if n == "remove":
+        return "remove(%s, %s)" % (t, M.literal(op["e"]))
+    if n == "put":
+        if alt:
+            return "put(%s, %s, %s)" % (t, M.literal(op["e"]), M.literal(op["x"]))
+        return "%s[%s] = %s" % (t, M.literal(op["e"]), M.literal(op["x"]))
+    raise ValueError(n)
+
+
+def sub_object(w, path, refs):
+    """the implementation object the path leads to, found by walking the object (no lookup)"""
+    for st in path:
+        if st["i"] > 0:
+            w = w.value[st["i"] - 1]
+        else:
+            want = M.canon(st["key"])
+            hit = [v for k, v in w.value.items() if M.canon(M.to_abs(k, refs, True)) == want]
+            w = hit[0]
+    return w
+
+
+def edit_api(w, path, op, refs):
+    """the same edit through the methods of ckl.values; False: no method performs it"""
+    t = sub_object(w, path, refs)
+    n = op["name"]
+    if n == "append":
+        t.addItem(M.build(op["e"], refs))
+    elif n == "insertat":
+        t.insertAt(op["i"] - 1, M.build(op["e"], refs))
+    elif n == "deleteat":
+        t.deleteAt(op["i"] - 1)
+    elif n == "remove":
+        t.removeItem(M.build(op["e"], refs))
+    elif n == "put":
+        t.addItem(M.build(op["e"], refs), M.build(op["x"], refs))
+    else:
+        return False
+    return True
+
+
+TOUCH_SRC = "[hw in << hw >>, length(map([[hw, 1]])), hw in << 'zz77' >>, hw == hw]"
+
+
+def touch(cx, w):
+    """the object is used as a set member and a map key (its hash is taken) before it is edited"""
+    cx.im.put("hw", w)
+    M.host(lambda: (hash(w), V.ValueSet().addItem(w).hasItem(w)))
+    cx.im.run(TOUCH_SRC)
+
+
+def edit_desc(pre, path, op, alt=False):
+    return f"{lit_key(pre)} ; {edit_stmt(path, op, alt)}"
+
+
+def check_edits(cx, res, use_api):
+    """binding A of ValEdit: every distinct transition on a real object whose hash was taken before,
+    the edited object against a fresh value of the model's content and against the pool F"""
+    im = cx.im
+    fp = res.records("FPOOL")
+    if not fp:
+        raise MachineryError("ValEdit exported no pool")
+    F = fp[0]["f"]
+    Fv = [M.build(f, im.refs) for f in F]
+    seen = set()
+    ops = {}
+    n = ndrift = 0
+    for e in res.records("EDGE"):
+        pre, path, op, post = e["pre"], e["path"], e["op"], e["post"]
+        k = (M.literal(pre), path_expr(path), op["name"], op["i"], M.literal(op["e"]), M.literal(op["x"]))
+        if k in seen:
+            continue
+        seen.add(k)
+        ops[(pre["k"], len(path), op["name"])] = ops.get((pre["k"], len(path), op["name"]), 0) + 1
+        via_api = use_api(n) and op["name"] not in ("setat", "setchar")
+        n += 1
+        alt = n % 2 == 1
+        desc = edit_desc(pre, path, op, alt) + (" (ckl.values method)" if via_api else "")
+        case = {"kind": "edit", "pre": pre, "path": path, "op": op, "alt": alt}
+        w = M.build(pre, im.refs) if n % 3 else None
+        if w is None:
+            o = im.run(M.literal(pre))
+            w = o[1] if o[0] == "val" and M.vkey(o[1], im.refs) == M.akey(pre) else M.build(pre, im.refs)
+        touch(cx, w)
+        if via_api:
+            o = M.host(lambda: edit_api(w, path, op, im.refs))
+        else:
+            o = im.run(edit_stmt(path, op, alt))
+        cx.n_eval += 1
+        if o[0] == "host":
+            cx.vio(f"edit:{desc} !{o[1]}", f"host-exception: {desc} raised {o[1]} {o[2]}", case)
+            continue
+        if o[0] != "val":
+            cx.run.drift("edit-refused", {"edit": desc, "got": str(o[1])[:100]})
+            ndrift += 1
+            continue
+        try:
+            same = M.canon(M.to_abs(w, im.refs, True)) == M.canon(post)
+        except M.Unencodable:
+            same = False
+        if not same:
+            # what the writer does to the content is not C06's subject
+            cx.run.drift("edit-result-differs-from-the-model", {"edit": desc, "impl": str(w)[:80],
+                                                               "model": lit_key(post)})
+            ndrift += 1
+            continue
+        probes = [(post, M.build(post, im.refs), True)] + [(f, fv, q) for f, fv, q in zip(F, Fv, e["eqs"])]
+        pl = V.ValueList()
+        for _, pv, _ in probes:
+            pl.addItem(pv)
+        im.put("PF", pl)
+        im.put("hw", w)
+        # API
+        for b, pv, want in probes:
+            oo = M.host(lambda: (bool(w == pv), bool(w != pv), hash(w) == hash(pv), ax_observe(w, pv),
+                                 ax_observe(pv, w)))
+            cx.n_eval += 1
+            if oo[0] == "host":
+                cx.vio(f"edit:{desc} ~ {lit_key(b)} !{oo[1]}", f"host-exception: comparing the edited object "
+                       f"with {lit_key(b)} raised {oo[1]}", dict(case, probe=b))
+                continue
+            eq, ne, hq, ax1, ax2 = oo[1]
+            got = [eq, not ne] + ax1 + ax2
+            names = ["api:==", "api:!="] + AX_NAMES + [t + " (fresh value held, edited object as probe)"
+                                                        for t in AX_NAMES]
+            for nm, g in zip(names, got):
+                if g != want:
+                    cx.vio(f"edit {nm}:{desc} ~ {lit_key(b)}",
+                           f"history: after {desc} the object is {lit_key(post)}; `{nm}` against a freshly "
+                           f"written {lit_key(b)} answers {g}, the model says {want}", dict(case, probe=b))
+            if want and not hq:
+                cx.vio(f"edit hash:{desc} ~ {lit_key(b)}",
+                       f"hash: after {desc} the object equals a freshly written {lit_key(b)} but their hashes "
+                       f"differ", dict(case, probe=b))
+        # program
+        oo = im.run(HROW_SRC)
+        cx.n_eval += len(probes)
+        if oo[0] == "host":
+            cx.vio(f"edit-prog:{desc} !{oo[1]}", f"host-exception: comparing the edited object in a program "
+                                                 f"raised {oo[1]} {oo[2]}", case)
+        elif oo[0] != "val":
+            cx.vio(f"edit-prog:{desc} !error", f"error: comparing the edited object in a program failed: "
+                                               f"{oo[1]}", case)
+        else:
+            rows = M.bools(oo[1])
+            for (b, pv, want), row in zip(probes, rows):
+                for nm, g in zip(PX_NAMES, row):
+                    if g != want:
+                        cx.vio(f"edit prog {nm}:{desc} ~ {lit_key(b)}",
+                               f"history: after {desc} the object is {lit_key(post)}; program `{nm}` against a "
+                               f"freshly written {lit_key(b)} answers {g}, the model says {want}",
+                               dict(case, probe=b))
+    return n, ndrift, ops
+
+
+HROW_SRC = ("[do def bx = hw; def mx = <<<>>>; mx[bx] = 7; def my = <<<>>>; my[by] = 7; ["
+            + ", ".join(src for _, src in PX_ITEMS) + "]; end for by in PF]")
+
+
+def random_edit(rng, cur):
+    """(path, op) of an edit enabled on the abstract content cur, or None"""
+    path = []
+    t = cur
+    while True:
+        subs = []
+        if t["k"] == "list":
+            subs = [(M_step(i + 1, None), x) for i, x in enumerate(t["items"]) if x["k"] in ("list", "set", "map", "str")]
+        elif t["k"] == "map":
+            subs = [(M_step(0, k), x) for k, x in zip(t["items"], t["vals"]) if x["k"] in ("list", "set", "map", "str")]
+        if subs and rng.random() < 0.45 and len(path) < 2:
+            st, t = rng.choice(subs)
+            path.append(st)
+        else:
+            break
+    k = t["k"]
+    n = len(t["items"])
+    e = M.gen_value(rng, rng.choice([0, 0, 0, 1]), elem=rich_scalar)
+    if rng.random() < 0.3 and t["items"]:
+        e = M.equal_variant(rng, rng.choice(t["items"]))
+    nul = M.a_null()
+    if k == "list":
+        c = rng.choice(["setat", "setat", "append", "insertat", "deleteat", "remove"])
+        if c == "setat" and n:
+            return path, {"name": "setat", "i": rng.randint(1, n), "e": e, "x": nul}
+        if c == "insertat":
+            return path, {"name": "insertat", "i": rng.randint(1, n + 1), "e": e, "x": nul}
+        if c == "deleteat" and n:
+            return path, {"name": "deleteat", "i": rng.randint(1, n), "e": nul, "x": nul}
+        if c == "remove" and n:
+            return path, {"name": "remove", "i": 0, "e": M.equal_variant(rng, rng.choice(t["items"])), "x": nul}
+        return path, {"name": "append", "i": 0, "e": e, "x": nul}
+    if k == "set":
+        if n and rng.random() < 0.4:
+            return path, {"name": "remove", "i": 0, "e": M.equal_variant(rng, rng.choice(t["items"])), "x": nul}
+        return path, {"name": "append", "i": 0, "e": e, "x": nul}
+    if k == "map":
+        if n and rng.random() < 0.3:
+            return path, {"name": "remove", "i": 0, "e": M.equal_variant(rng, rng.choice(t["items"])), "x": nul}
+        x = M.gen_value(rng, rng.choice([0, 0, 1]), elem=rich_scalar)
+        return path, {"name": "put", "i": 0, "e": e, "x": x}
+    if k == "str" and t["s"]:
+        return path, {"name": "setchar", "i": rng.randint(1, len(t["s"])), "e": M.a_str(rng.choice(M.ALPHA_RICH)),
+                      "x": nul}
+    return None
+
+
+def M_step(i, key):
+    return {"i": i, "key": key if key is not None else M.a_null()}
+
+
+def hrel_event(cx, w, b, desc):
+    """the edited object w against a freshly written b"""
+    im = cx.im
+    y = M.build(b, im.refs)
+    case = {"kind": "prog", "src": desc}
+    r = observe_pair(cx, w, y, f"{desc} ~ {lit_key(b)}", case)
+    if r is None:
+        return None
+    eq, ne, hq, px = r
+    r2 = observe_pair(cx, y, w, f"{lit_key(b)} ~ {desc}", case)
+    if r2 is None:
+        return None
+    return {"op": "hrel", "b": b, "eq": eq, "ne": ne, "qe": r2[0], "hq": hq, "px": px + r2[3]}
+
+
+def history_trace(cx, rng, events, meta):
+    """one object with a history: built, used as a member and a key, edited in place by a program a
+    few times; after every edit compared with freshly written values"""
+    im = cx.im
+    start = M.gen_value(rng, rng.choice([1, 2, 2]), kinds=rng.choice([["list"], ["list"], ["list", "map"], ["set"],
+                                                                       ["map", "list"]]), elem=rich_scalar)
+    if start["k"] not in ("list", "set", "map"):
+        start = M.a_list([start])
+    if rng.random() < 0.15:
+        start = M.a_str("".join(rng.choice(M.ALPHA_RICH) for _ in range(rng.randint(1, 3))))
+    w = M.build(start, im.refs)
+    events.append({"op": "hnew", "v": start})
+    meta.append("def hw = " + lit_key(start))
+    hist = "def hw = " + lit_key(start)
+    cur = start
+    for _ in range(rng.randint(1, 5)):
+        touch(cx, w)
+        pe = random_edit(rng, cur)
+        if pe is None:
+            break
+        path, op = pe
+        alt = rng.random() < 0.5
+        stmt = edit_stmt(path, op, alt)
+        o = im.run(stmt)
+        cx.n_eval += 1
+        if o[0] == "host":
+            cx.vio(f"history:{hist}; {stmt} !{o[1]}", f"host-exception: {hist}; {stmt} raised {o[1]} {o[2]}",
+                   {"kind": "prog", "src": hist + "; " + stmt})
+            break
+        try:
+            new = M.to_abs(w, im.refs, True)
+        except M.Unencodable:
+            break
+        hist += "; " + stmt
+        events.append({"op": "hedit", "path": path, "name": op["name"], "i": op["i"], "e": op["e"], "x": op["x"],
+                       "okk": o[0] == "val", "cur": new})
+        meta.append(hist)
+        for b in (M.equal_variant(rng, new), M.deep_reorder(rng, new) if rng.random() < 0.5 else M.mutate(rng, new, rich=True),
+                  cur):
+            e = hrel_event(cx, w, b, hist)
+            if e is None:
+                return
+            events.append(e)
+            meta.append(hist + "  against  " + lit_key(b))
+        cur = new
+
+
+NATIVE_EXPRS = [
+    "0.1 + 0.2", "0.3", "0.1 * 3", "0.2 + 0.1", "1.0 / 3", "1 / 3.0", "0.7 + 0.1", "0.8", "1.1 * 1.1", "1.21",
+    "4.35 * 100", "435.0", "decimal('0.1') + decimal('0.2')", "3 / 10.0", "0.3 - 0.0", "1.0 - 0.9", "0.1",
+    "date(45000.1234567)", "date(45000.12345671)", "date(45000.1234567) + 0", "date('20230315025746')",
+    "date('20230315025746') + 0.0", "date(36678.533755138895)", "date('20000601124836')",
+    "date('20000601124836') + 0.000005138888888888889", "date('20000601124836') + 0.000005138900462962963",
+    "date(36678)", "date('20000601')", "date('20000601') + 1 - 1", "parse_date('2000-06-01', 'yyyy-MM-dd')",
+    "[0.1 + 0.2]", "[0.3]", "<< 0.1 + 0.2 >>", "<< 0.3 >>", "[date(45000.1234567)]", "[date('20230315025746')]",
+]
+
+
+def kclass(a):
+    return "num" if a["k"] in ("int", "dec") else a["k"]
+
+
+def native_pairs(cx, events, meta):
+    """values MADE by natives (decimal arithmetic, date(<number>), date arithmetic): the very objects
+    they returned, abstracted exactly, every pair of them"""
+    im = cx.im
+    made = []
+    for src in NATIVE_EXPRS:
+        o = im.run(src)
+        if o[0] != "val":
+            continue
+        try:
+            made.append((src, o[1], M.to_abs(o[1], im.refs, True)))
+        except M.Unencodable:
+            cx.run.drift("native-made-value-outside-the-encoding", {"src": src, "value": str(o[1])[:60]})
+    for sa, x, a in made:
+        for sb, y, b in made:
+            if kclass(a) != kclass(b):
+                continue
+            e = rel_event(cx, a, b, x, y)
+            if e:
+                events.append(e)
+                meta.append(f"{sa} ~ {sb}")
+    return len(made)
+
+
+def binding_b(cx, rng, npairs, ntraces, nhist=0):
     events, meta = [], []
+    cx.cov_native = native_pairs(cx, events, meta)
+    for _ in range(nhist):
+        history_trace(cx, rng, events, meta)
     for _ in range(npairs):
-        a = M.gen_value(rng, rng.choice([0, 1, 2, 3]))
+        a = M.gen_value(rng, rng.choice([0, 1, 2, 3]), elem=rich_scalar)
         r = rng.random()
-        b = M.equal_variant(rng, a) if r < 0.45 else (M.mutate(rng, a) if r < 0.8 else M.gen_value(rng, 2))
+        b = (M.equal_variant(rng, a) if r < 0.45 else
+             (M.mutate(rng, a, rich_scalar, rich=True) if r < 0.8 else M.gen_value(rng, 2, elem=rich_scalar)))
         e = rel_event(cx, a, b)
         if e:
             events.append(e)
             meta.append(f"{lit_key(a)} ~ {lit_key(b)}")
         if rng.random() < 0.3:
-            c = M.equal_variant(rng, b) if rng.random() < 0.6 else M.mutate(rng, b)
+            c = M.equal_variant(rng, b) if rng.random() < 0.6 else M.mutate(rng, b, rich_scalar, rich=True)
             e = tri_event(cx, a, b, c)
             if e:
                 events.append(e)
                 meta.append(f"{lit_key(a)} ~ {lit_key(b)} ~ {lit_key(c)}")
         cx.n_eval += 1
-    pool = [M.gen_value(rng, 1) for _ in range(6)] + [M.a_int(1), M.a_dec(1.0), M.a_dec(0.0), M.a_dec(-0.0),
-                                                      M.a_int(2 ** 53), M.a_dec(2.0 ** 53), M.a_int(2 ** 53 + 1)]
+    pool = [M.gen_value(rng, 1, elem=rich_scalar) for _ in range(6)] + [
+        M.a_int(1), M.a_dec(1.0), M.a_dec(0.0), M.a_dec(-0.0), M.a_int(2 ** 53), M.a_dec(2.0 ** 53),
+        M.a_int(2 ** 53 + 1), M.a_dec(0.3, True), M.a_dec(0.1 + 0.2, True),
+        M.mk("date", s=[2024, 1, 1, 0, 0, 0, 0]), M.mk("date", s=[2024, 1, 1, 0, 0, 0, 444000])]
     for _ in range(ntraces):
-        pl = pool + [M.gen_value(rng, 2) for _ in range(3)]
+        pl = pool + [M.gen_value(rng, 2, elem=rich_scalar) for _ in range(3)]
         cont_trace(cx, rng, events, meta, pl)
-    bad = M.validate(cx.run, events, "Val_Trace validation of recorded relations and container histories")
-    for k, why in bad:
-        if why.startswith("wf"):
-            raise MachineryError(f"harness sent an ill-formed value: {meta[k]}")
-        j = k
-        if events[k]["op"].startswith("c"):
-            while events[j]["op"] != "cnew":
-                j -= 1
-        cx.vio(f"trace:{meta[k]} @{why}", f"{why}: recorded observation {meta[k]} rejected by Val_Trace "
-                                          f"at clause {why}: {_brief(events[k])}",
-               {"kind": "trace", "events": events[j:k + 1], "meta": meta[j:k + 1]})
+    bad = M.validate(cx.run, events, "Val_Trace validation of recorded relations, container histories and "
+                                     "objects edited in place")
+    report_bad(cx, events, meta, bad)
     return len(events)
 
 
+def report_bad(cx, events, meta, bad):
+    for k, why in bad:
+        if why.startswith("wf"):
+            raise MachineryError(f"harness sent an ill-formed value: {meta[k]}")
+        if why in ("edit-enabled", "edit-result"):
+            # what a writer does to the content is not C06's subject (the model re-synchronises)
+            cx.run.drift("edit-differs-from-the-model", {"history": meta[k], "clause": why})
+            continue
+        j = k
+        op = events[k]["op"]
+        if op.startswith("c"):
+            while events[j]["op"] != "cnew":
+                j -= 1
+        elif op.startswith("h"):
+            while events[j]["op"] != "hnew":
+                j -= 1
+        detail = _brief(events[k])
+        if why == "interchangeable":
+            detail = {"==": events[k]["eq"], "answer otherwise": disagreeing(events[k])[:8]}
+        cx.vio(f"trace:{meta[k]} @{why}", f"{why}: recorded observation {meta[k]} rejected by Val_Trace "
+                                          f"at clause {why}: {detail}",
+               {"kind": "trace", "events": events[j:k + 1], "meta": meta[j:k + 1]})
+
+
 def _brief(e):
-    return {k: v for k, v in e.items() if k not in ("a", "b", "c", "v", "k", "x", "other", "r") or isinstance(v, (bool, int))}
+    return {k: v for k, v in e.items()
+            if k not in ("a", "b", "c", "v", "k", "x", "other", "r", "px", "e", "cur", "path")
+            or isinstance(v, (bool, int))}
 
 
 def run(run):
     quick = run.tier == "quick"
     rng = random.Random(run.seed)
     cx = Ctx(run)
-    res_u, res = M.tlc_parallel([
+    res_u, res, res_r, res_e = M.tlc_parallel([
         ("ValLaws", "ValLaws_c06_quick" if quick else "ValLaws_c06_thorough", dict(coverage=False, timeout=3000)),
-        ("ValCont", "ValCont_quick" if quick else "ValCont_thorough", dict(coverage=True, timeout=3000))])
+        ("ValCont", "ValCont_quick" if quick else "ValCont_thorough", dict(coverage=True, timeout=3000)),
+        ("ValCont", "ValCont_rich", dict(coverage=True, timeout=3000)),
+        ("ValEdit", "ValEdit_quick" if quick else "ValEdit_thorough", dict(coverage=True, timeout=3000))])
     u = M.load_universe(run, None, "ValLaws: equality laws over the universe", res_u)
     n = u["n"]
     A, L = build_universe(cx, u)
+    nres = settle_resolution(cx, u, A, L)
     neq = 0
     for i in range(1, n + 1):
         for j in range(1, n + 1):
@@ -585,32 +1060,62 @@ def run(run):
     check_reads(cx, pool, reads, lambda k: True if not quick else k % 3 == 0)
     check_edges(cx, pool, reads, list(edges.values()), lambda k: k % (7 if quick else 2) == 0)
     check_orders(cx, pool, reads, rng)
+    # the same machine over neighbouring doubles and dates inside one second
+    run.add_tlc(res_r, "ValCont: set / map object machine over close decimals and dates")
+    pool_r = res_r.records("POOL")[0]
+    reads_r, edges_r = {}, {}
+    for r in res_r.records("READ"):
+        reads_r.setdefault(ckey(r["obj"]), r)
+    for e in res_r.records("EDGE"):
+        edges_r.setdefault((ckey(e["pre"]), e["op"], e["e"], e["x"]), e)
+    check_reads(cx, pool_r, reads_r, lambda k: True)
+    check_edges(cx, pool_r, reads_r, list(edges_r.values()), lambda k: True)
+    check_orders(cx, pool_r, reads_r, rng)
+    # objects edited in place after their hash was taken
+    run.add_tlc(res_e, "ValEdit: values with a history")
+    nedit, nedrift, edit_ops = check_edits(cx, res_e, lambda k: k % 4 == 3)
+    if nedit == 0:
+        raise MachineryError("ValEdit exported no cases")
     ek = next(iter(edges.values()))
     run.sample({"EDGE": {"pre": M.literal(cont_abs(pool, ek["pre"])), "op": ek["op"],
                          "arg": M.literal(pool["e"][ek["e"] - 1]),
                          "post": M.literal(cont_abs(pool, ek["post"]))}})
 
-    nev = binding_b(cx, rng, 1500 if quick else 30000, 150 if quick else 3000)
-    run.cov["traces_validated_against_impl"] = n * n + len(reads) + len(edges) + nev
+    nev = binding_b(cx, rng, 1500 if quick else 30000, 150 if quick else 3000, 150 if quick else 3000)
+    ncont = len(reads) + len(edges) + len(reads_r) + len(edges_r)
+    run.cov["traces_validated_against_impl"] = n * n + ncont + nedit + nev
     run.cov["evaluations"] = cx.n_eval + cx.im.n
-    run.cov["distinct_nontrivial"] = n * n + len(reads) + len(edges) + nev
+    run.cov["distinct_nontrivial"] = n * n + ncont + nedit + nev
     run.cov["rule"] = ("binding A: one case per ordered pair of the ValLaws universe (|U|^2, each through the "
                        "API and through programs, constructor-built against literal-built), one per reachable "
-                       "container of ValCont (reads) and one per distinct transition; binding B: one per "
-                       "recorded event accepted by Val_Trace")
+                       "container of ValCont (reads) and one per distinct transition (two pools), one per "
+                       "distinct transition of ValEdit (an object edited in place after its hash was taken, "
+                       "compared with fresh values); binding B: one per recorded event accepted by Val_Trace")
     run.cov["exhaustive"] = True
     run.cov["universe"] = n
     run.cov["equal_pairs"] = neq
+    run.cov["pairs_differing_only_below_the_second"] = nres
     run.cov["unequal_pairs_through_container_programs"] = nun
-    run.cov["bounds"] = {"universe": n, "containers": len(reads), "transitions": len(edges), "trace_events": nev}
+    run.cov["bounds"] = {"universe": n, "containers": len(reads) + len(reads_r),
+                         "transitions": len(edges) + len(edges_r), "edits": nedit, "trace_events": nev}
+    run.cov["edits_by_kind_depth_writer"] = {f"{k[0]}/{k[1]}/{k[2]}": v for k, v in sorted(edit_ops.items())}
+    run.cov["edits_not_compared_because_the_writer_differs_from_the_model"] = nedrift
+    run.cov["values_made_by_natives"] = getattr(cx, "cov_native", 0)
+    run.cov["observers_of_a_pair"] = len(OBS_NAMES)
     run.assumptions += [
         "hash is a host notion: `equal implies same hash` is checked on the code (and by Val_Trace clause "
         "`hash` on recorded pairs), not stated in the spec",
         "which of two equal representatives a container keeps is not part of the property: compared as drift",
         "removal of an absent element raises a host exception (C13); only removals of present elements are compared",
         "identity-only values (stdout, stdin, console) stand for the kind `ref`; functions and objects are not generated",
-        "decimals are generated as exact dyadic rationals (denominator <= 1024) or integral values >= 10^8; "
-        "inf/nan are out of scope",
+        "decimals: exact dyadic rationals (denominator <= 1024), integral values >= 10^8, and every other "
+        "double as sign * M / 2^e (e <= 1100; neighbouring doubles one and two ulps apart); inf/nan are out "
+        "of scope",
+        "two dates inside one second: the statement does not say whether they are equal; what `==` answers is "
+        "the reference for hash, membership, lookup and container == (consistency), a difference from the "
+        "model's microsecond resolution is drift",
+        "what an in-place writer does to the content of an object (l[i] = e, append, insert_at, ...) is not "
+        "C06's subject: an edit whose result differs from the model is drift and the case is skipped",
     ]
 
 
